@@ -75,3 +75,74 @@ Proof. exact adoption_trace_accepted. Qed.
 Example C05_missing_removal_rejected :
   monitor init adoption_trace_without_removal = Some (14, CChildHasParent).
 Proof. exact missing_removal_rejected. Qed.
+
+(* ------------------------------------------------------------------ the html tree-builder model *)
+(* PROVED FOR ALL INPUTS (over the executable model coq/Tree/TreeModel*.v, which ./check C02 ties to html5ever
+   event for event): on every token run that respects the tokenizer protocol, whatever breach the judge could
+   report on the operations the model emits is a breach of one of the clauses NOT covered:
+     CDuplicateAttribute, CChildHasParent, CCycle, CSecondDoctype, CDoctypeAfterElement, CCloneModel.
+   Covered (never reported): CUnknownHandle, CHandleNumbering, CTemplateFlag, CMathmlIpFlag, CNotElement,
+   CNotTemplate, CNotForm, CNotAssociatable, CNotScript, CNotOption, CParentNotContainer, CChildNotCreated,
+   CSiblingIsText, CSiblingNoParent
+   - i.e. handles are handed out before use and numbered consecutively, element-only arguments are elements of the
+   right HTML kind, children are only put below the document / template contents / elements, what is inserted is
+   an element or a comment the sink created, and the reference node of an insert-before is an element that has a
+   parent (append_before_sibling is never called; append_based_on_parent_node takes its "before" branch only for a
+   parented element).  The uncovered clauses stay monitored (./check C05).
+   (RunPanic 99 = the ghost shape assertion of C02_tree_no_panic_partial, RunFuel = fuel of the Reprocess loop.) *)
+From HV Require Tree.TreeTypes Tree.TreeModel Tree.TreeInvDefs Tree.TreeInvMain Tree.TreeContract Tree.TreeContractRun.
+
+Theorem C05_html_ops_respect_contract_partial :
+  forall o toks, TreeInvMain.protocol (TreeModel.init_state o) toks ->
+    match TreeModel.run_tokens (TreeModel.init_state o) toks [] with
+    | TreeModel.RunOk s' _ =>
+      forall k c, In (k, c) (monitor_all 0 init (TreeContractRun.calls_of s')) -> TreeContract.covered c = false
+    | TreeModel.RunPanic n => n = 99%N
+    | TreeModel.RunFuel => True
+    end.
+Proof. exact TreeContractRun.ops_respect_contract_partial. Qed.
+Print Assumptions C05_html_ops_respect_contract_partial.
+
+Theorem C05_html_fragment_ops_respect_contract_partial :
+  forall o name attrs with_form toks,
+    match TreeModel.init_fragment name attrs with_form (TreeModel.init_state o) with
+    | TreeTypes.Ok _ s0 =>
+      TreeInvMain.protocol s0 toks ->
+      match TreeModel.run_tokens s0 toks [] with
+      | TreeModel.RunOk s' _ =>
+        forall k c, In (k, c) (monitor_all 0 init (TreeContractRun.calls_of s')) -> TreeContract.covered c = false
+      | TreeModel.RunPanic n => n = 99%N
+      | TreeModel.RunFuel => True
+      end
+    | _ => False
+    end.
+Proof. exact TreeContractRun.ops_respect_contract_fragment_partial. Qed.
+Print Assumptions C05_html_fragment_ops_respect_contract_partial.
+
+(* the same for the first breach, i.e. for [monitor] itself, in any state satisfying the model's invariant *)
+Theorem C05_html_first_breach_uncovered :
+  forall s, TreeInvDefs.TInv s ->
+    forall k c, monitor init (TreeContractRun.calls_of s) = Some (k, c) -> TreeContract.covered c = false.
+Proof. exact (fun s I => TreeContract.trace_contract_first (TreeTypes.out s) (TreeContract.TInv_trace_okb s I)). Qed.
+Print Assumptions C05_html_first_breach_uncovered.
+
+(* which clauses are covered *)
+Theorem C05_covered_clauses :
+  map TreeContract.covered
+    [CUnknownHandle; CHandleNumbering; CTemplateFlag; CMathmlIpFlag; CNotElement; CNotTemplate; CNotForm;
+     CNotAssociatable; CNotScript; CNotOption; CParentNotContainer; CChildNotCreated; CSiblingIsText; CSiblingNoParent;
+     CDuplicateAttribute; CChildHasParent; CCycle; CSecondDoctype; CDoctypeAfterElement; CCloneModel]
+  = [true; true; true; true; true; true; true; true; true; true; true; true; true; true;
+     false; false; false; false; false; false].
+Proof. exact eq_refl. Qed.
+
+(* non-vacuity: the example run of Props/C02.v emits its operations and the FULL judge accepts them;
+   the partial check rejects an append below a comment *)
+Theorem C05_html_example_run_accepted :
+  match TreeModel.run_tokens (TreeModel.init_state TreeInvMain.ex_opts) TreeInvMain.ex_tokens [] with
+  | TreeModel.RunOk s' _ =>
+    Nat.leb 10 (length (TreeContractRun.calls_of s')) = true /\ monitor init (TreeContractRun.calls_of s') = None
+  | _ => False
+  end.
+Proof. exact TreeContractRun.ex_contract_accepts. Qed.
+Print Assumptions C05_html_example_run_accepted.
